@@ -28,6 +28,8 @@ def gen_input(rng):
         d["n"] = rng.randint(-2, 6)
     if rng.random() < 0.4:
         d["flag"] = rng.random() < 0.5
+    if rng.random() < 0.3:
+        d["ts"] = rng.choice(["2023-11-14T22:13:20Z", "2023-11-15T03:43:20+05:30", "2023-11-14T18:43:20.000-03:30", "not a ts", 5])
     if rng.random() < 0.06:
         d["Error"] = rng.choice(["", "x", 0, None, "boom"])   # in-band lead: data that looks like an error output
     return d
@@ -58,6 +60,15 @@ class Gen(object):
                                           "$$.State.Name", "$$.Execution.Input", "$$.StateMachine.Id"])
             elif r < 0.6 and in_map:
                 t[k + ".$"] = rng.choice(["$$.Map.Item.Value", "$$.Map.Item.Index"])
+            elif r < 0.72:
+                t[k + ".$"] = rng.choice([
+                    "States.Format('n={} b={}', $.n, $.b)", "States.Array($.n, 'x', null, true)", "States.ArrayLength($.items)",
+                    "States.MathAdd($.n, 1)", "States.JsonToString($.a)", "States.ArrayPartition($.items, 2)",
+                    "States.ArrayContains($.items, 1)", "States.StringSplit($.b, 'l,')", "States.Base64Encode($.b)",
+                    "States.ArrayGetItem($.items, 0)", "States.ArrayUnique($.items)", "States.ArrayRange(1, $.n, 2)",
+                    "States.Format('{}', States.ArrayLength(States.Array(1, States.MathAdd($.n, 2))))",
+                    "States.StringToJson('{\\\"k\\\": [1, 2]}')", "States.JsonMerge($.a, $.a, false)", "States.Nope(1)",
+                    "States.MathAdd($.b, 1)", "States.Format('it\\\'s {}', $.missing)"])
             elif r < 0.8:
                 t[k] = rng.choice([1, "lit", True, None, [1, "a"], {"z": 0}])
             else:
@@ -227,12 +238,19 @@ class Gen(object):
             else:
                 rule = {op: [self.rule(None, depth + 1) for _ in range(rng.randint(1, 3))]}
         else:
-            var = rng.choice(["$.n", "$.b", "$.flag", "$.a.b", "$.missing", "$.a"])
-            op = rng.choice(["NumericEquals", "NumericLessThan", "NumericGreaterThan", "StringEquals", "BooleanEquals", "IsPresent"])
-            if op.startswith("Numeric"):
+            var = rng.choice(["$.n", "$.b", "$.flag", "$.a.b", "$.missing", "$.a", "$.ts"])
+            op = rng.choice(["NumericEquals", "NumericLessThan", "NumericGreaterThan", "StringEquals", "BooleanEquals", "IsPresent",
+                             "NumericGreaterThanEquals", "NumericLessThanEquals", "StringLessThan", "StringGreaterThanEquals",
+                             "StringMatches", "IsNull", "IsString", "IsNumeric", "IsBoolean", "IsTimestamp",
+                             "TimestampLessThan", "TimestampEquals", "NumericEqualsPath", "StringEqualsPath", "BooleanEqualsPath"])
+            if op.endswith("Path"):
+                val = rng.choice(["$.n", "$.b", "$.a.b", "$.flag", "$.missing"])
+            elif op.startswith("Numeric"):
                 val = rng.randint(-1, 4)
-            elif op == "StringEquals":
-                val = rng.choice(["x", "y", "", "hello"])
+            elif op.startswith("String"):
+                val = rng.choice(["x", "y", "", "hello", "h*o", "*", "he\\*"])
+            elif op.startswith("Timestamp"):
+                val = rng.choice(["2023-11-14T22:13:20Z", "2023-11-15T03:43:20+05:30", "2020-01-01T00:00:00.5-03:30"])
             else:
                 val = rng.random() < 0.5
             rule = {"Variable": var, op: val}
